@@ -17,6 +17,14 @@ type xof struct {
 
 // New creates a new XOF using the blake2s hash.
 func New(seed []byte) kyber.XOF {
+	seedCopy := make([]byte, len(seed))
+	copy(seedCopy, seed)
+	return &xof{impl: newImpl(seedCopy), seed: seedCopy}
+}
+
+// newImpl returns the underlying XOF in its seeded initial state: keyed with
+// the first blake2s.Size bytes of the seed, the remainder absorbed.
+func newImpl(seed []byte) blake2s.XOF {
 	seed1 := seed
 	var seed2 []byte
 	if len(seed) > blake2s.Size {
@@ -33,11 +41,7 @@ func New(seed []byte) kyber.XOF {
 	if err != nil {
 		panic("blake2s.XOF.Write should not return error: " + err.Error())
 	}
-
-	seedCopy := make([]byte, len(seed2))
-	copy(seedCopy, seed2)
-
-	return &xof{impl: b, seed: seedCopy}
+	return b
 }
 
 func (x *xof) Clone() kyber.XOF {
@@ -74,8 +78,9 @@ func (x *xof) Reseed() {
 }
 
 func (x *xof) Reset() {
-	x.impl.Reset()
-	_, _ = x.impl.Write(x.seed)
+	// back to the state New(seed) produced, also after a Reseed (which replaces
+	// the key of the underlying XOF)
+	x.impl = newImpl(x.seed)
 }
 
 func (x *xof) XORKeyStream(dst, src []byte) {
